@@ -62,8 +62,33 @@ fn prepare(root: &Path, state: &str) -> Result<(), String> {
             d("x/data/inner"); w("x/data/inner/file", "f");
             w("x.sbom.cdx.json", "{\"old\":1}"); w("x.sbom.syft.json", "{\"old\":3}");
         }
+        // --- further states (mirrored by `preparedX` in Driver/C12.lean): loops over env files / process directories / exec.d
+        //     programs / SBOM formats run several times, many entries, empty contents, an SBOM format "in the middle" only
+        "spdx" => { d("x"); w("x.toml", TOML_RESTORED); w("x.sbom.spdx.json", "{\"old\":2}"); }
+        "rich" | "richinv" => {
+            d("x"); w("x.toml", if state == "rich" { TOML_RESTORED } else { TOML_INVALID });
+            d("x/env"); w("x/env/FOO.append", "a"); w("x/env/FOO.delim", ":"); w("x/env/ZED.override", "z");
+            d("x/env.build"); w("x/env.build/BAR.default", "b"); w("x/env.build/BAR2.prepend", "b2");
+            d("x/env.launch"); w("x/env.launch/BAZ.override", "c"); w("x/env.launch/BAZ2.append", "c2");
+            d("x/env.launch/web"); w("x/env.launch/web/QUX.prepend", "d"); w("x/env.launch/web/QUX2.append", "d2");
+            d("x/env.launch/worker"); w("x/env.launch/worker/W.override", "w"); w("x/env.launch/worker/W2.default", "w2");
+            d("x/exec.d"); w("x/exec.d/old1", "#!old1\n"); w("x/exec.d/old2", "#!old2\n");
+            d("x/bin"); w("x/bin/tool", "t");
+            d("x/data/inner"); w("x/data/top", "t"); w("x/data/inner/file", "f"); w("x/data/inner/file2", "g");
+            w("x.sbom.cdx.json", "{\"old\":1}"); w("x.sbom.spdx.json", "{\"old\":2}"); w("x.sbom.syft.json", "{\"old\":3}");
+        }
+        "wide" => {
+            d("x"); w("x.toml", TOML_RESTORED);
+            d("x/env"); for i in 0..21 { w(&format!("x/env/E{i:02}.append"), &format!("e{i}")); }
+            for i in 0..33 { w(&format!("x/f{i:02}"), &format!("{i}")); }
+            d("x/exec.d"); for i in 0..17 { w(&format!("x/exec.d/p{i:02}"), &format!("#!{i}")); }
+            w("x.sbom.cdx.json", "{\"old\":1}");
+        }
+        "emptyvals" => { d("x"); w("x.toml", TOML_RESTORED); d("x/env"); w("x/env/EMPTY.append", ""); w("x/env/FULL.append", "v"); w("x.sbom.cdx.json", ""); }
         _ => return Err(format!("unknown state {state}")),
     }
+    fs::write(root.join("srcs/prog2"), "#!2\n").unwrap();
+    fs::write(root.join("srcs/prog3"), "#!3\n").unwrap();
     let _ = x;
     Ok(())
 }
@@ -74,6 +99,22 @@ fn env1() -> LayerEnv {
     e.insert(Scope::All, ModificationBehavior::Append, "FOO", "a2");
     e.insert(Scope::Launch, ModificationBehavior::Override, "BAZ", "c2");
     e.insert(Scope::Process("web".into()), ModificationBehavior::Prepend, "QUX", "d2");
+    e
+}
+
+/// several entries in every scope, two process types (mirrored by `env2` in Driver/C12.lean)
+fn env2() -> LayerEnv {
+    let mut e = LayerEnv::new();
+    e.insert(Scope::All, ModificationBehavior::Append, "FOO", "a2");
+    e.insert(Scope::All, ModificationBehavior::Delimiter, "FOO", ":");
+    e.insert(Scope::All, ModificationBehavior::Override, "ZED", "z2");
+    e.insert(Scope::Build, ModificationBehavior::Default, "BAR", "b2");
+    e.insert(Scope::Build, ModificationBehavior::Prepend, "BAR2", "b3");
+    e.insert(Scope::Launch, ModificationBehavior::Override, "BAZ", "c2");
+    e.insert(Scope::Launch, ModificationBehavior::Append, "BAZ2", "c3");
+    e.insert(Scope::Process("web".into()), ModificationBehavior::Prepend, "QUX", "d2");
+    e.insert(Scope::Process("web".into()), ModificationBehavior::Append, "QUX2", "d3");
+    e.insert(Scope::Process("worker".into()), ModificationBehavior::Override, "W", "w2");
     e
 }
 
@@ -104,9 +145,16 @@ fn cached(ctx: &BuildContext<TestBuildpack>, name: &LayerName, restored: &str, i
     })
 }
 
-struct TraitLayer { strategy: ExistingLayerStrategy, migration: &'static str, prog: PathBuf }
+struct TraitLayer { strategy: ExistingLayerStrategy, migration: &'static str, prog: PathBuf, multi: bool }
 impl TraitLayer {
     fn result(&self, v: i64) -> LayerResult<V> {
+        if self.multi {
+            let src = |n: &str| self.prog.parent().unwrap().join(n);
+            return LayerResultBuilder::new(V { v }).env(env2())
+                .exec_d_program("prog", src("prog")).exec_d_program("prog2", src("prog2")).exec_d_program("prog3", src("prog3"))
+                .sbom(Sbom::from_bytes(SbomFormat::CycloneDxJson, "{\"new\":1}")).sbom(Sbom::from_bytes(SbomFormat::SpdxJson, "{\"new\":2}"))
+                .sbom(Sbom::from_bytes(SbomFormat::SyftJson, "{\"new\":3}")).build_unwrapped();
+        }
         LayerResultBuilder::new(V { v }).env(env1()).exec_d_program("prog", self.prog.clone())
             .sbom(Sbom::from_bytes(SbomFormat::CycloneDxJson, "{\"new\":1}")).build_unwrapped()
     }
@@ -143,13 +191,19 @@ fn run(root: &Path, op: &str, state: &str) -> Result<String, String> {
             "sbom" => lr.write_sboms(&[Sbom::from_bytes(SbomFormat::CycloneDxJson, "{\"new\":1}"), Sbom::from_bytes(SbomFormat::SpdxJson, "{\"new\":2}")]),
             "sbom-none" => lr.write_sboms(&[]),
             "execd" => lr.write_exec_d_programs([("prog", prog.clone())]),
+            "env-multi" => lr.write_env(env2()),
+            "env-emptyval" => { let mut e = LayerEnv::new(); e.insert(Scope::All, ModificationBehavior::Append, "EMPTY", ""); e.insert(Scope::Launch, ModificationBehavior::Override, "FULL", "v"); lr.write_env(e) }
+            "sbom-all" => lr.write_sboms(&[Sbom::from_bytes(SbomFormat::CycloneDxJson, "{\"new\":1}"), Sbom::from_bytes(SbomFormat::SpdxJson, "{\"new\":2}"), Sbom::from_bytes(SbomFormat::SyftJson, "{\"new\":3}")]),
+            "sbom-spdx" => lr.write_sboms(&[Sbom::from_bytes(SbomFormat::SpdxJson, "{\"new\":2}")]),
+            "sbom-empty" => lr.write_sboms(&[Sbom::from_bytes(SbomFormat::CycloneDxJson, ""), Sbom::from_bytes(SbomFormat::SyftJson, "{\"new\":3}")]),
+            "execd-multi" => lr.write_exec_d_programs([("prog", prog.clone()), ("prog2", root.join("srcs/prog2")), ("prog3", root.join("srcs/prog3"))]),
             "execd-none" => lr.write_exec_d_programs(Vec::<(String, PathBuf)>::new()),
             _ => { disarm(); return Err(format!("unknown op {op}")); }
         };
         disarm();
         return Ok(show(r));
     }
-    let trait_layer = |strategy, migration| TraitLayer { strategy, migration, prog: prog.clone() };
+    let trait_layer = |strategy, migration| TraitLayer { strategy, migration, prog: prog.clone(), multi: op.ends_with("-multi") };
     arm();
     let out = match op {
         "cached-keep" => showref(cached(&ctx, &name, "keep", "delete")),
@@ -157,6 +211,8 @@ fn run(root: &Path, op: &str, state: &str) -> Result<String, String> {
         "cached-repl" => showref(cached(&ctx, &name, "keep", "replace")),
         "uncached" => match ctx.uncached_layer(&name, UncachedLayerDefinition { build: true, launch: false }) { Ok(_) => "ok".into(), Err(e) => err_kind(&e) },
         "t-recreate" => show(ctx.handle_layer(name.clone(), trait_layer(ExistingLayerStrategy::Recreate, "recreate")).map(|_| ())),
+        "t-recreate-multi" => show(ctx.handle_layer(name.clone(), trait_layer(ExistingLayerStrategy::Recreate, "recreate")).map(|_| ())),
+        "t-update-multi" => show(ctx.handle_layer(name.clone(), trait_layer(ExistingLayerStrategy::Update, "recreate")).map(|_| ())),
         "t-update" => show(ctx.handle_layer(name.clone(), trait_layer(ExistingLayerStrategy::Update, "recreate")).map(|_| ())),
         "t-keep" => show(ctx.handle_layer(name.clone(), trait_layer(ExistingLayerStrategy::Keep, "recreate")).map(|_| ())),
         "t-mig-recreate" => show(ctx.handle_layer(name.clone(), trait_layer(ExistingLayerStrategy::Keep, "recreate")).map(|_| ())),
